@@ -129,7 +129,13 @@ func flight3Parse(
 		state.RemoteRandom = serverHelloMsg.Random
 		cfg.Log.Tracef("[handshake] use cipher suite: %s", selectedCipherSuite.String())
 
-		if len(serverHelloMsg.SessionID) > 0 && bytes.Equal(state.SessionID, serverHelloMsg.SessionID) {
+		// The session is resumed only if the server echoes the session id this client offered
+		// together with a stored master secret. This parser runs again whenever more of the server
+		// flight arrives: by then state.SessionID already holds the id of a ServerHello that came
+		// ahead of the rest of its flight and the master secret has been cleared, and that must
+		// not be mistaken for a resumption (it would run under an empty master secret).
+		if len(serverHelloMsg.SessionID) > 0 && len(state.MasterSecret) > 0 &&
+			bytes.Equal(state.SessionID, serverHelloMsg.SessionID) {
 			next, dtlsAlert, err := handleResumption(ctx, conn, state, cache, cfg)
 			if next != 0 && err == nil {
 				state.CommitNegotiatedExtensions(decision)
